@@ -1,3 +1,4 @@
+@classmethod
 def spec(cls, loc, scale):
     loc, scale = _astensorsfloat(loc, scale)
     return torch.exp(loc + scale ** 2 / 2)
